@@ -57,18 +57,27 @@ ENGINES_C07 = [
                         "implementation-only oracles: a reference Vec stepped alongside and the C07 page-index predicate"),
 ]
 
-ENGINES = []
+import importlib.util as _u, os as _os
+_spec = _u.spec_from_file_location("c03raw", _os.path.join(_os.path.dirname(_os.path.dirname(_os.path.abspath(__file__))), "propdefs_C03_raw_fragment.py"))
+_raw = _u.module_from_spec(_spec); _spec.loader.exec_module(_raw)
+PROP["engines"] = PROP["engines"] + _raw.PROP["engines"]
+PROP["rule"] = PROP["rule"] + " || " + _raw.PROP["rule"]
+
+ENGINES = _raw.ENGINES
+
+_RAW_TEXT = ("Proof. Raw formats (BytesVec, ZeroCopyVec, EagerVec wrappers), Props/C03raw.v: C03_refines_raw - for ALL histories "
+             "of push, truncate, write, flush, reset, re-import, update, delete, take, fill and stamped writes, all element types "
+             "and retention settings, after EVERY step results, contents (length, deleted slots) and stamp equal the reference; "
+             "C03_reimport, C03_no_garbage, C03_write_ok (unbounded induction, Vec/RvRefine.v).")
 
 TEXT = dict(
     design_ref="DESIGN.md section 4, C03",
     technique="Coq refinement proof (compressed vector model -> reference vector) for all histories + extracted-model differential on every format",
-    text=("Proof (compressed formats; raw formats pending merge): Props/C03comp.v proves, for ALL histories of push, truncate, "
+    text=(_RAW_TEXT + " Compressed formats: Props/C03comp.v proves, for ALL histories of push, truncate, "
           "write, flush, stamped write, reset and re-import at any point and ALL compressor output lengths, that the "
           "branch-for-branch model of ReadWriteCompressedVec refines the reference vector (contents, length, stamp) after every "
           "step and that no step errs; the model is compared with real PcoVec/LZ4Vec/ZstdVec and EagerVec wrappers on its "
-          "complete internal state after every step, and a plain reference Vec is stepped alongside the real code. The raw "
-          "formats (BytesVec/ZeroCopyVec) are modelled and differentially validated by engine rawvec; their statements are in "
-          "Props/C03raw.v once merged."),
+          "complete internal state after every step, and a plain reference Vec is stepped alongside the real code."),
     note=("Trusted: Coq kernel; gen_consts.py; extraction + OCaml driver; harness; the compressors' round trip is a hypothesis "
           "(tested). The Rust code is modelled, not verified."),
 )
